@@ -152,6 +152,7 @@ def run(prog, tier, extra=None):
     R4 = res.rule("C11.decoders", "no decoder that can panic on input is reachable from the handlers", floor=15)
     R5 = res.rule("C11.peer-indexing", "indexing into fields of peer-decoded structures is covered by a dominating length fact", floor=60)
 
+    _r2_cov = {}
     core_units = [u for u in prog.units if u.crate == "saito_core"]
     cg = CallGraph(prog, core_units)
     for e in ENTRY:
@@ -250,8 +251,20 @@ def run(prog, tier, extra=None):
             pre = y0[1].rsplit("::", 1)[-1]
         if pre:
             res.instance(R2)
-            exc = R2_EXCEPTIONS.get((b.path, pre))
-            if exc and (b.path, pre) in R2_EXCEPTION_PRECONDITIONS and not R2_EXCEPTION_PRECONDITIONS[(b.path, pre)](prog):
+            # the excepted body itself, or a helper that only ever runs as part of it (the statement moved into a private fn)
+            owner = b.path
+            if (owner, pre) not in R2_EXCEPTIONS:
+                cov = _r2_cov.get(pre)
+                if cov is None:
+                    from ._helpers import helper_closure, root as _root
+                    cov = _r2_cov[pre] = helper_closure(prog, [k[0] for k in R2_EXCEPTIONS if k[1] == pre])
+                from ._helpers import root as _root
+                covered_by = cov.get(_root(b.path))
+                for k in R2_EXCEPTIONS:
+                    if k[1] == pre and covered_by is not None and _root(k[0]) == covered_by:
+                        owner = k[0]
+            exc = R2_EXCEPTIONS.get((owner, pre))
+            if exc and (owner, pre) in R2_EXCEPTION_PRECONDITIONS and not R2_EXCEPTION_PRECONDITIONS[(owner, pre)](prog):
                 exc = None      # the invariant the exception rests on no longer holds
             if exc:
                 res.sample({"rule": R2, "site": b.loc(bb), "value": pre, "exception": exc})
@@ -318,22 +331,45 @@ def run(prog, tier, extra=None):
     da5 = c10.DecoderAnalysis(prog)
     da5.via = {}
     used_exc = set()
-    for p in sorted(live):
-        b = prog.body(p)
-        if b is None or b.is_promoted or "/test/" in b.file or "::tests::" in p:
-            continue
-        da5._run(b, ())
-        counters = {}
-        for o in da5.last_all:
+
+    def peer_obligations(all_obl):
+        out = []
+        for o in all_obl:
             if o["kind"] not in ("slice", "bounds") or o["base"] is None:
                 continue
             flds = [(x[2], x[3]) for x in walk(o["base"]) if x[0] == "field" and x[2].endswith(PEER_ADTS)]
-            if not flds:
-                continue
+            if flds:
+                out.append((o, flds[0]))
+        return out
+    live_bodies = [prog.body(p) for p in sorted(live)]
+    live_bodies = [b for b in live_bodies if b is not None and not b.is_promoted and "/test/" not in b.file and "::tests::" not in b.path]
+    standalone = {}
+    for b in live_bodies:
+        da5.analyze(b, ())
+        standalone[b.path] = peer_obligations(da5.memo_all[(b.path, (), ())])
+    # a body whose indexing is not covered by its own tests may be a helper: it is then judged in the context of each call site
+    # (the caller's dominating facts travel with the call, field lengths of a `&Transaction` argument included)
+    needs_ctx = {p for p, obl in standalone.items() if any(not o["ok"] for o, _ in obl)}
+    if needs_ctx:
+        da5 = c10.DecoderAnalysis(prog)
+        da5.via = {}
+        da5.ctx_targets = set(needs_ctx)
+        for b in live_bodies:
+            da5.analyze(b, ())
+    for b in live_bodies:
+        p = b.path
+        contexts = [v for (path, ctx, fkey), v in da5.memo_all.items() if path == p and fkey] if p in needs_ctx else []
+        counters = {}
+        for idx, (o, (adt, fld)) in enumerate(standalone[p]):
             res.instance(R5)
-            if o["ok"]:
+            ok = o["ok"]
+            if not ok and contexts:
+                key_o = (o["bb"], o["kind"], o["desc"])
+                ok = all(any((c["bb"], c["kind"], c["desc"]) == key_o and c["ok"] for c in ctx_all) for ctx_all in contexts)
+                if ok:
+                    res.sample({"rule": R5, "site": o["loc"], "op": o["desc"][:70], "verdict": "covered at every call site of this helper (%d)" % len(contexts)})
+            if ok:
                 continue
-            adt, fld = flds[0]
             short = "%s.%s" % (adt.rsplit("::", 1)[-1], fld)
             exc = R5_EXCEPTIONS.get((p, short)) or R5_EXCEPTIONS.get((p, adt.rsplit("::", 1)[-1] + ".*"))
             if exc:
